@@ -27,6 +27,25 @@ NOT_APPLICABLE = {p: 'check under construction in this session; not claimed unti
                   for p in ['C%02d' % i for i in range(1, 21)]}
 
 PROPS = {
+    'C17': dict(
+        claimed=True,
+        level='exploration',
+        level_text="Generated publish/acknowledge/deny/fail/restart histories with every kind of limit, started in a share of cases "
+                   "from a session positioned at the identifier wrap; identifier uniqueness, the in-flight bound, consecutive "
+                   "hand-out and the exact ErrMax condition are invariants over the Persistence operation log and the call "
+                   "returns. A second generator drives the subscribe/unsubscribe slots to and past their limit, with abandoned "
+                   "requests, late answers in three orders and (thorough tier) a wrap of the 13-bit counter with requests open.",
+        technique='stateful property-based testing (rapid); invariants over the Persistence operation log and the reference decoder\'s view of the wire',
+        rule="TestC17Identifiers: Max per level from {0,1,2,3,5,16,16384,-1,20000}; actions {pub1/pub2 in variants ok | invalid "
+             "topic | failing Save, releaseAcks(1..6), break, appStep, restart at a drawn stop point (<= 2)}; two thirds of the "
+             "cases start at identifiers 0x3ffd-0x3fff. TestC17Slots: 3..530 requests with answers withheld, every k-th "
+             "abandoned, optional 8200 answered requests in between (counter wrap), answers for a drawn prefix of a "
+             "forward/reverse/interleaved order, then connection loss. Non-trivial: the limit was reached, the identifier "
+             "wrapped, a restart had pending transfers, or requests were abandoned / beyond the slot limit.",
+        assumptions=ASSUME_SIM,
+        quick=dict(engines=[rapid('^TestC17Identifiers', 1600, steps=50), rapid('^TestC17Slots', 64, shards=8)]),
+        thorough=dict(engines=[rapid('^TestC17Identifiers', 40000, shards=14, steps=80, timeout=1500), rapid('^TestC17Slots', 600, shards=14, timeout=1500)]),
+    ),
     'C02': dict(
         claimed=True,
         level='fault_enumeration',
